@@ -413,8 +413,14 @@ def gen_body(rng, prim, budget):
                     blocks.append([f"try-{len(inner) + 1}"] + inner + ["unlock"])
     ops = []
     for b in blocks:
+        if prim in ("mtx", "mon") and b and b[0] == "lock" and not any(o.startswith("try") for o in b) and rng.random() < 0.3:
+            # the same block through Mutex::Guard / Monitor::Guard
+            ren = {"lock": "glock", "unlock": "gunlock", "wait": "gwait"}
+            b = [ren.get(o, "gtwait-" + o.split("-")[1] if o.startswith("twait-") and prim == "mon" else o) for o in b]
         if len(ops) + len(b) <= budget:
             ops += b
+    if rng.random() < 0.08:
+        ops.insert(rng.randrange(len(ops) + 1) if not any(o.startswith("try") for o in ops) else 0, rng.choice(["tid", "yield"]))
     return ops
 
 
@@ -460,7 +466,7 @@ def gen_scen(rng, prim=None):
         else:
             main.insert(0, f"join-{j}")
     progs = [(rets[0], main)] + [(rets[i + 1], workers[i]) for i in range(k)]
-    tmos = [int(o.split("-")[1]) for _, ops in progs for o in ops if o.startswith("twait-")]
+    tmos = [int(o.split("-")[1]) for _, ops in progs for o in ops if o.startswith(("twait-", "gtwait-"))]
     mx = max(tmos) if tmos else 0
     if mx > 0:
         quantum = rng.choice([mx * 1000000, mx * 1000000 // 2, mx * 1000000 - 1, mx * 1000000 // 2 + 1, mx * 1000000 // 3 + 1])
@@ -522,7 +528,9 @@ def split_op(o):
     name, arg = (o.split("-")[0], int(o.split("-")[1])) if "-" in o else (o, None)
     if name == "xstart":                    # second start() on object arg // 8 (with the body of another program)
         return "start", arg // 8
-    return ("start" if name == "mstart" else name), arg
+    # Mutex::Guard / Monitor::Guard: constructor = lock, destructor = unlock, Guard::wait = wait
+    name = {"mstart": "start", "glock": "lock", "gunlock": "unlock", "gwait": "wait", "gtwait": "twait"}.get(name, name)
+    return name, arg
 
 
 DLCOV = {}      # measured: timed waits by primitive x clock phase (tv_nsec carry or not) x time-out >= 1 s x result
@@ -969,6 +977,9 @@ FIXED_SCENARIOS = [
     "scen thr 0 0 0 1 0 0 T:7:mstart-1,xstart-10,start-2,xstart-17,join-1,join-2 T:11: T:22:",
     "scen sig 0 5 0 1 0 0 F:1 T:0:start-1,start-2,wait,dtor-1,dtor-2 T:1:set T:2:set",
     "scen sig 0 5 0 1 1 0 T:0:start-1,wait,destroy,join-1 T:1:set",
+    # Mutex::Guard / Monitor::Guard (nested; Guard::wait both forms), Thread::getCurrentThreadId / yield
+    "scen mtx 0 0 0 1 0 0 T:0:start-1,mstart-2,tid,join-1,join-2 T:1:glock,glock,tid,gunlock,gunlock T:2:yield,try-2,glock,gunlock,unlock",
+    "scen mon 0 5 999000000 1500000 1 0 T:0:start-1,start-2,yield,join-1,join-2 T:1:glock,gwait,gtwait-2,gunlock T:2:set,tid,set",
 ] + [
     # deadline arithmetic: timed waits of every primitive at clock phases where (ms within the second + timeout % 1000) does /
     # does not cross 1000, with time-outs below and above one second; the last one expires exactly at a tick
